@@ -2,11 +2,7 @@
 #include "squid.h"
 #include "html/Quoting.h"
 #include "common.h"
-#ifdef VF_THOROUGH
-#define MAXN 2
-#else
 #define MAXN 1
-#endif
 // reference entity decoder
 static unsigned refDecode(const char *q, unsigned char *out)
 {
@@ -30,11 +26,18 @@ extern "C" void c32_html_quote(void)
     for (int round = 0; round < 2; ++round) {
         // first call: "" or one character of each output-length class (1, 4, 5 and 6 output bytes); second call: fully symbolic
         static const char first[5] = { 0, 'a', '<', '\x0b', '\x80' };
+        // (thorough: the second string may also carry a second character, one of each output-length class)
+        static const char second[3] = { 'a', '<', '\x80' };
         const unsigned sel = round ? 0 : (unsigned)vf_concretize(vf_range(0, 4, "first"));
-        const unsigned n = round ? (unsigned)vf_concretize(vf_range(0, MAXN, "len2")) : (sel ? 1 : 0);
+        unsigned n = round ? (unsigned)vf_concretize(vf_range(0, MAXN, "len2")) : (sel ? 1 : 0);
+        unsigned sel2 = 0;
+#ifdef VF_THOROUGH
+        if (round && n == 1) { sel2 = (unsigned)vf_concretize(vf_range(0, 3, "second")); if (sel2) n = 2; }
+#endif
         char *in = (char *)xmalloc(n + 1);
         for (unsigned i = 0; i < n; ++i) {
-            if (round) { in[i] = (char)vf_nondet_u8("byte"); vf_assume(in[i] != 0); }
+            if (round && i == 0) { in[i] = (char)vf_nondet_u8("byte"); vf_assume(in[i] != 0); }
+            else if (round) in[i] = second[sel2 - 1];
             else in[i] = first[sel];
         }
         in[n] = 0;
@@ -42,7 +45,7 @@ extern "C" void c32_html_quote(void)
         const size_t ql = strlen(q);
         vf_assert(ql <= 6 * (size_t)n, "quoted form fits 6*len");
         for (size_t i = 0; i < ql; ++i) vf_assert(q[i] != '<' && q[i] != '>' && q[i] != '"' && q[i] != '\'', "no raw markup metacharacter");
-        unsigned char back[MAXN * 6 + 8];
+        unsigned char back[(MAXN + 1) * 6 + 8];
         const unsigned bl = refDecode(q, back);
         vf_assert(bl == n, "decoded length");
         for (unsigned i = 0; i < n; ++i) vf_assert(back[i] == (unsigned char)in[i], "decoding the entities returns the original");
